@@ -83,7 +83,7 @@ Definition scan_step (st : sstate) (s : scan) : scan * option sstate :=
         else (s, Some SConsumeLine)
       else if tok_is_op nt then (s, Some SConsumeLine)
       else sconsume (mkSc (sc_rd s) (sc_labels s ++ [t_val nt]) (sc_for s) (sc_err s) (sc_syms s)) SLabels
-    | tokComment | tokNewline => sconsume s SLabels
+    | tokComment | tokNewline | tokColon => sconsume s SLabels
     | tokEOF => (s, None)
     | _ => (s, Some SConsumeLine)
     end
